@@ -24,8 +24,9 @@ RULE = ('random well-typed expression trees (depth 0..4 quick, 0..6 thorough) ov
         'derivative/gradient tables against numpy primitives; random trees of the functional arithmetic (value, '
         'gradient element, derivative(x)(d), class of derivative(x)).  A tree case is non-trivial when the operator is '
         'flagged nonlinear; distinct by (tree, x, d).')
-ASSUMPTIONS = ['exact arithmetic: the model is evaluated over Q / proved over R; float rounding is outside the theorems '
-               '(tolerance 1e-9 abs+rel in the correspondence)',
+ASSUMPTIONS = ['exact arithmetic: float rounding is outside the theorems (tolerance 1e-9 abs+rel in the correspondence); '
+               'that the run at Q is the rational restriction of the model at R is PROVED for the polynomial part '
+               '(C06/Transfer.v) and assumed for the parts with square roots / divisions',
                'elements of rn(n) are modelled as lists, the scalar field as singleton lists, product-space elements as '
                'the concatenation of their parts',
                'differentiability of a composite is proved at points where every leaf met along the way is '
@@ -35,8 +36,10 @@ ASSUMPTIONS = ['exact arithmetic: the model is evaluated over Q / proved over R;
                'central-difference limit are proved from it',
                'central-difference O(h^2) rate is validated numerically (probes: error ratio per decade of h in the asymptotic '
                'window), not proved']
-TRUSTED = ['translate/ufunc_deriv.py (Python ast -> Gallina tables), fail-closed',
-           'C06/Model.v hand-written mirror of the derivative methods, tied by structural correspondence',
+TRUSTED = ['translate/ufunc_deriv.py, translate/derivatives.py, translate/gradients.py (Python ast -> Gallina rules), fail-closed',
+           'C06/Interp.v, C06/FInterp.v: meaning of the rule syntax (the overloads scalar*op, op*scalar, vector*op, op*vector, '
+           'value*op, op+op and the constructors); the model is PROVED equal to the interpreted regenerated rules and is also '
+           'tied by the structural correspondence',
            'harness serialiser of Python operator objects into oexpr/fexpr terms; the measured variant switch mav',
            'NumPy entry-wise kernels, ODL element arithmetic']
 
